@@ -459,7 +459,17 @@ class SegEval:
     # ----------------------------------------------------------------- spaces
     def columns(self, sp) -> Vec:
         """Column ranges of a space term ([n, dim] array of all listed vectors)."""
-        from .terms import NARROW_INT_DTYPES, indices_space
+        from .terms import NARROW_INT_DTYPES, indices_space, meshgrid_space
+        if sp and sp[0] == "ite":
+            # a space chosen between alternative constructions: the column ranges must agree
+            a_, b_ = self.columns(sp[2]), self.columns(sp[3])
+            if repr(a_) != repr(b_):
+                raise AnalysisError(f"space chosen between constructions with different column ranges: {show(sp)[:120]}")
+            return a_
+        mg_ = meshgrid_space(sp)
+        if mg_ is not None:
+            # one row per grid point: column i takes the values of range i (whatever the row order, which is C19 R19.3's business)
+            sp = ("app", "itertools.product", (("star", mg_[0]),))
         grid = indices_space(sp)
         if grid is not None and grid[2] in NARROW_INT_DTYPES:
             raise NarrowGrid(f"the grid offsets of the space are enumerated in {grid[2]} (np.indices(.., dtype={grid[2]})): they run up to the width of each "
